@@ -767,6 +767,15 @@ func runC17(c *Ctx, tier string) {
 			c.Fail("C17-O5", "(*lake.Root).RemovePool", fn.Pos(), "the pool's data can be deleted before its name is removed: a crash in between leaves a named pool whose objects are gone")
 		}
 	}
+	// O6: existence is not completeness
+	c.Rule("C17-O6", "existence of a stored object is never taken as proof that it is complete: storage.Engine.Exists is called only from the confirmed read-only sites; no write path skips (re)writing an object because a file of that name exists (a crash leaves such files behind)")
+	whoMayCall(c, "C17-O6", "storage.Engine.Exists",
+		func(cc *ssa.CallCommon, _ string) bool { return isEngineMethod(cc, "Exists") },
+		map[string]string{
+			"(*lake.Pool).ObjectExists": "resolving a user-supplied tag to an object id (read-only)",
+			"(*lake.Pool).Vacuum":       "dry-run listing of what a vacuum would delete (read-only)",
+		}, []string{"pkg/storage"}, 2,
+		"a new decision based on whether a stored object exists: everything written before the commit point is garbage that a retry must overwrite, and the file engine creates files before filling them, so a file left by a crash (or still being written by another process) would be treated as valid")
 	// H1
 	if fn := p.Func("(*lake/journal.Queue).ReadHead"); fn == nil {
 		c.Undecided("C17-H1", "(*lake/journal.Queue).ReadHead", "anchor does not resolve")
